@@ -132,7 +132,7 @@ package server
 //@ requires [C05] smOK(srv.statsManager) && (reason == NormalTermination || reason == ExpiredTermination || reason == TakenOverTermination)
 //@ let D = srv.subscriptionsDB
 //@ modifies heap, ghostall(queue.Store.$cleans), ghost(S.$removes), ghost(S.$lastRemoved), ghost(S.$has), ghost(D.$unsubAlls), ghost(D.$lastUnsubAll), ghost(H.$st), ghost(H.$stID), ghost(H.$stReason)
-//@ preserves all(server.*), all(Hooks.*), all(statsManager.*), all(client.*), all(ClientOptions.*), all(gmqtt.Session.*), all(gmqtt.Message.*), all(packets.Disconnect.*), all(packets.Properties.*), allcells(uint32)
+//@ preserves all(server.*), all(Hooks.*), all(statsManager.*), all(client.*), all(ClientOptions.*), all(gmqtt.Session.*), all(gmqtt.Message.*), all(packets.Disconnect.*), all(packets.Connect.*), all(packets.Properties.*), allcells(uint32), allmaps(string, *willMsg), allmaps(string, unack.Store)
 //@ ensures [C05] !has(srv.clients, clientID) && !has(srv.offlineClients, clientID) && srv.queueStore[clientID] == nil
 //@ ensures [C05] S.$removes == old(S.$removes) + 1 && S.$lastRemoved == clientID
 //@ ensures [C05 C14] old(H.OnSessionTerminated) != nil ==> H.$st == old(H.$st) + 1 && H.$stID == clientID && H.$stReason == reason
@@ -183,11 +183,13 @@ package server
 // that id any more when it returns (an online duplicate was closed and waited for): at most one connection per id.
 //@ func (*server).lockDuplicatedID
 //@ props C05
+//@ let S = srv.sessionStore
 //@ requires [C05] srv != nil && c != nil && c.opts != nil && c.rwc != nil && srv.sessionStore != nil && srv.clients != nil
-//@ monitor srv.mu protects map(srv.clients), ghost(srv.sessionStore.$has) with invariant srv.clients != nil
-//@ modifies heap, ghost(srv.sessionStore.$has), ghostall(client.$nout), ghostall(client.$lastOut)
-//@ preserves all(server.*), all(client.* - err), all(ClientOptions.*)
+//@ monitor srv.mu protects map(srv.clients), map(srv.offlineClients), map(srv.queueStore), map(srv.unackStore), map(srv.willMessage), ghost(srv.sessionStore.$has) with invariant srv.clients != nil && (forall k string :: has(srv.willMessage, k) ==> srv.willMessage[k] != nil)
+//@ modifies all(client.err), map(srv.clients), map(srv.offlineClients), map(srv.queueStore), map(srv.unackStore), map(srv.willMessage), ghost(S.$has), ghostall(client.$nout), ghostall(client.$lastOut)
 //@ abstract call client).Close pure
 //@ ensures [C05] err == nil && oldSession != nil ==> oldSession.ClientID == c.opts.ClientID && srv.clients[c.opts.ClientID] == nil
+//@ ensures [C05] err == nil ==> (oldSession != nil) == S.$has[c.opts.ClientID]
 //@ ensures [C05] err != nil ==> oldSession == nil
+//@ ensures [C05] err == nil ==> (forall k string :: has(srv.willMessage, k) ==> srv.willMessage[k] != nil)
 //@ loop 1 invariant srv.clients != nil && c.opts != nil && c.rwc != nil && srv.sessionStore != nil
